@@ -94,6 +94,8 @@ def _emit_fn(gen, root, fn, canary_false=False):
             body = X.r41_r42_iter_filter(body, fired, rules_)
         if 'R40' in rules_:
             body = X.r40_iter_fold(body, fired)
+        if 'R43' in rules_:
+            body = X.r43_result_map(body, fired)
         for hook in getattr(fn, 'body_hooks', ()):       # opt-in (units ovl_*): rewrite rules kept in vx/ovlrules.py, `hook(body, fired) -> body`; each logs what it did
             body = hook(body, fired)
         if gtok and gtok.get('callees'):
